@@ -24,22 +24,33 @@ import stixgen
 from props import schema_common as sc
 
 MANIFEST = {
-    "text": "Coq theorems over the schema-interpreter model (all inputs, all fuels): under allow_custom=False no property "
-            "cleaner returns a flagged value, and a constructor / parse returns a flagged object only through the "
-            "custom_properties loophole (never, with the parse guard); a run that returns a custom-free object does not depend "
-            "on the allow_custom switch (repaired reference inversion); flag_iff_strict_reparse_partial: an allow-mode run "
-            "returns flag false exactly when the strict run on the object's own encoding succeeds (constructor level, the "
-            "classes of the regenerated tables that pass closed_oki: 117 of 123 -- plain __init__ forms and the 2.1 Indicator one --, plain JSON input); strict_custom_free_partial: "
-            "the object a strict constructor returns is custom-free at every depth in the typed sense of Spec/CustomFree.v "
-            "(members are class properties, hash names from the vocabulary, references to registered non-x- types, nested "
-            "objects custom-free in turn), and in either mode an unflagged object is; both also at stix2.parse level for the 87 "
-            "parse entry points (flag_iff_strict_reparse_parse_partial, strict_custom_free_parse_partial); refuted-variant witnesses on "
-            "the generated tables. Model tied to /repo by regenerated class tables and a correspondence run (flag + strict "
-            "reparse outcome); the property itself is evaluated on the real library with custom content injected at every "
-            "nesting site of generated objects of every class.",
+    "text": "Coq theorems over the schema-interpreter model, all fuels. Flag level (all classes, all inputs): under "
+            "allow_custom=False no property cleaner returns a flagged value (strict_cleaners_never_flag -- close to "
+            "definitional: each cleaner ends in `if not allow and flag then raise`), and a constructor / parse returns a "
+            "flagged object only through the custom_properties loophole (never, with the parse guard). SUBSTANTIVE THEOREMS, "
+            "scope: variant with vr_year_pad and vr_ref_flip_unreg (repaired reference inversion); the classes passing closed_oki "
+            "-- 117 of 123 (plain __init__ forms and the 2.1 Indicator one; NOT MarkingDefinition x2, Bundle x2, ObservedData x2) "
+            "-- and 87 parse entry points; 'plain' input: no member named `extensions` or `custom_properties` at any depth, no "
+            "null / [] values. Hence of the nesting sites the property names, only EMBEDDED-OBJECT, LIST, HASH and REFERENCE "
+            "sites (and top-level custom properties) are covered by these theorems; extensions are excluded by the input "
+            "restriction, bundle members and observed-data members because their container classes are outside closed_oki "
+            "(cf_val is false for those kinds) -- those three sites are covered by the flag-level theorem and the oracle only. "
+            "custom_free_run_mode_independent: a run that returns an unflagged object does not depend on the allow_custom "
+            "switch; flag_iff_strict_reparse_partial / _parse_partial: an allow-mode run returns flag false exactly when the "
+            "strict run on the object's own encoding returns Ok; flagged_strict_reparse_refused_partial / _parse_partial give the "
+            "refused side in definite form: for a flagged object the strict run on its own encoding returns the error "
+            "ExtraPropertiesError or InvalidValueError (never Unmodelled, never out of fuel); strict_custom_free_partial / "
+            "_parse_partial and unflagged_is_custom_free_partial: the object is custom-free in the typed sense of "
+            "Spec/CustomFree.v at every embedded-object / list depth (members are class properties, hash names from the "
+            "vocabulary, references to registered non-x- types, nested objects custom-free in turn). Refuted-variant witnesses "
+            "and a positive instance (identity with x_foo: flagged, strict re-run ExtraPropertiesError) on the generated "
+            "tables. Model tied to /repo by regenerated class tables and a correspondence run (flag + strict reparse "
+            "outcome); the property itself is evaluated on the real library with custom content injected at every nesting "
+            "site -- including extensions, bundle and observed-data members -- of generated objects of every class.",
     "design_ref": "DESIGN.md 6/C02,C03,C04,C01 (T C04)",
     "note": "Trusted: Coq kernel + vm_compute, tr_tables translator, frozen spec tables (which sites exist), the generator. "
-            "Store-level allow_custom forwarding is covered by C14's call-site table.",
+            "Store-level allow_custom forwarding is covered by C14's call-site table. Theorem hypotheses not discharged for "
+            "the pinned tree: vr_year_pad, vr_ref_flip_unreg, vr_positional_none (all fixed in /repo HEAD; detected per run).",
     "technique": "Coq proof over an executable model + correspondence run + property oracle on the implementation",
 }
 
